@@ -609,7 +609,8 @@ def build(suite, info):
         exists = min(v, d, ny, k) >= 1 and nz >= 2 and k % 2 == 0 and d < v and (v * d) % 2 == 0
         if exists:
             return Case(suite, r, impl, None, cls="legal", nontrivial=True, info=info)
-        cls = "d==v" if (min(v, d, ny, k) >= 1 and nz >= 2 and k % 2 == 0 and d == v and (v * d) % 2 == 0) else "illegal"
+        # d == v (no d-regular graph on v vertices): ValueError like every other illegal choice (D41, fixed)
+        cls = "illegal:d>=v" if (min(v, d, ny, k) >= 1 and nz >= 2 and k % 2 == 0 and d >= v) else "illegal"
         return Case(suite, r, impl, expect_value_error(call), cls=cls, nontrivial=True, info=info)
 
     if suite == "r_pftemplate":
@@ -642,7 +643,7 @@ def cases(ctx):
     infos.append(("r_pitfall_args", dict(v=4, d=3, ny=2, nz=1, k=2)))  # D7: nz = 1
     infos.append(("r_pitfall", dict(v=4, d=3, ny=2, nz=2, k=2, gseed=1)))   # D29
     infos.append(("r_pitfall", dict(v=4, d=2, ny=2, nz=2, k=2, gseed=1)))
-    infos.append(("r_pitfall_args", dict(v=2, d=2, ny=2, nz=2, k=2)))  # d == v: NetworkXError escapes
+    infos.append(("r_pitfall_args", dict(v=2, d=2, ny=2, nz=2, k=2)))  # D41 (fixed): d == v is refused with ValueError
 
     # ---- Pythagorean triples
     for N in list(range(-1, 27)) + ([30, 41, 60] if not thorough else list(range(27, 80)) + [100, 150, 250, 400]):
